@@ -115,10 +115,38 @@ async def sk_move_naming_nothing(hp, w, rnd, ctx):
     await w.observe()
 
 
+async def sk_rename_inbox_then_arrivals(hp, w, rnd, ctx):
+    """RENAME INBOX empties INBOX; what arrives afterwards reuses the message
+    numbers of messages that were flagged \\Deleted: an EXPUNGE must not
+    take the newcomers."""
+    a, b2 = w.session(), w.session()
+    for i in range(5):
+        await w.op_append(a, "INBOX", flags=rnd.choice([None, ["\\Seen"]]))
+    await w.op_select(a, "INBOX")
+    await w.op_store(a, [1, 2], "add", ["\\Deleted", "\\Flagged"])
+    await w.op_store(a, [4], "add", ["\\Deleted"])
+    await w.op_rename(a, "INBOX", "saved")
+    # (no flag probing in between: what this check is about is what the EXPUNGE takes)
+    w.no_probe = True
+    try:
+        await w.op_append(b2, "INBOX", flags=["\\Seen"])
+        await w.op_append(b2, "INBOX")
+        w.deliver("INBOX", 2, unseen=[True, False])
+        await w.rig.advance(6)
+        await w.op_select(b2, "INBOX")
+        await w.op_expunge(b2)
+    finally:
+        w.no_probe = False
+    await w.observe()
+    await w.op_select(a, "saved")
+    await w.op_expunge(a)
+    await w.observe()
+
+
 class C05(HistProp):
     prop = PROP
     names = ["INBOX", "other"]
-    skeletons = [sk_uid_expunge_sparse, sk_examine_session, sk_copy_same_mailbox_and_missing, sk_placeholder_destination, sk_move_naming_nothing]
+    skeletons = [sk_uid_expunge_sparse, sk_examine_session, sk_copy_same_mailbox_and_missing, sk_placeholder_destination, sk_move_naming_nothing, sk_rename_inbox_then_arrivals]
     weights = {"append": 9, "store_del": 10, "store": 4, "uid_store": 3, "expunge": 8, "uid_expunge": 7, "copy": 7, "uid_copy": 5, "move": 6, "uid_move": 4,
                "close": 4, "examine": 4, "fetch_body": 3, "deliver": 2, "noop": 4, "idle": 1}
     opts = {"examine_prob": 0.3}
